@@ -122,6 +122,7 @@ type hist struct {
 	seq     int
 	oplog   []string
 	kinds   map[string]int
+	out     string
 	dialSvc map[string]string // ephemeral names created by our dials -> kind (for leak attribution)
 }
 
@@ -172,7 +173,7 @@ func cmdC17Hist(args []string) {
 
 		return
 	}
-	h := &hist{res: res, rng: rand.New(rand.NewSource(*seed)), m: m, kinds: map[string]int{}, dialSvc: map[string]string{}}
+	h := &hist{res: res, rng: rand.New(rand.NewSource(*seed)), m: m, kinds: map[string]int{}, dialSvc: map[string]string{}, out: *out}
 	for _, id := range []string{"a", "b", "c"} {
 		h.nodes = append(h.nodes, m.Nodes[id])
 	}
@@ -398,6 +399,23 @@ func (h *hist) shutdownAll() {
 
 // ---------------------------------------------------------------- the history
 
+// closeSock: a socket Close that never returns because a delivery holds the registry wedges the whole node: judged
+// and reported at once (the accounting that follows would block on the same lock).
+func (h *hist) closeSock(pc netceptor.PacketConner, what string) {
+	ok, dead := closeBounded(pc.Close, 30*time.Second)
+	if ok {
+		return
+	}
+	if dead {
+		h.res.violate("C17:hist:close-blocked-by-delivery", "PacketConn.Close never returns ("+what+"): it waits for the registry write lock while a deliverer holding the read lock waits in the hand-over select for Close's cancel", map[string]any{"ops": len(h.oplog)})
+	} else {
+		h.res.inconclusive("PacketConn.Close did not return within 30 s (%s)", what)
+	}
+	h.res.Evaluations = len(h.oplog)
+	h.res.write(h.out)
+	os.Exit(0)
+}
+
 func (h *hist) bounded(what string, d time.Duration, f func()) bool {
 	if within(d, f) {
 		return true
@@ -529,7 +547,7 @@ func (h *hist) opCloseSock(underFire bool) {
 		}()
 	}
 	time.Sleep(time.Duration(200+h.rng.Intn(3000)) * time.Microsecond)
-	_ = s.pc.Close()
+	h.closeSock(s.pc, "closed under fire")
 	s.closed++
 	if h.rng.Intn(2) == 0 {
 		_ = s.pc.Close()
